@@ -61,6 +61,8 @@ type csummary struct {
 	escapes map[int]string
 	returns map[int]bool
 	clipped map[int]bool // every returned value rooted in the parameter has capacity = length
+	appends map[int]bool // appended to as a whole (in place when the caller passes a value with spare capacity)
+	recut   map[int]bool // some returned value rooted in the parameter went through a slice expression (other bounds)
 }
 
 type cuse struct {
@@ -237,7 +239,9 @@ func (s *cscan) origins(fn *ssa.Function, v ssa.Value, depth int, seen map[ssa.V
 			for j := range sum.returns {
 				if arg := argFor(c, callee, j); arg != nil {
 					for _, r := range s.origins(fn, arg, depth+1, seen) {
-						r.resliced = true
+						// a helper that returns its parameter as it is, or appended to as a whole, keeps the
+						// caller's view (f = add(f, x) is f = append(f, x)); one that returns other bounds does not
+						r.resliced = r.resliced || sum.recut[j]
 						r.clipped = sum.clipped[j]
 						out = append(out, r)
 					}
@@ -303,7 +307,7 @@ func (s *cscan) summaryOf(fn *ssa.Function) *csummary {
 		return s.summary[fn]
 	}
 	s.busy[fn] = true
-	sum := &csummary{writes: map[int]string{}, escapes: map[int]string{}, returns: map[int]bool{}, clipped: map[int]bool{}}
+	sum := &csummary{writes: map[int]string{}, escapes: map[int]string{}, returns: map[int]bool{}, clipped: map[int]bool{}, recut: map[int]bool{}, appends: map[int]bool{}}
 	for _, ev := range s.scan(fn) {
 		if ev.root.fa != nil {
 			continue
@@ -315,8 +319,15 @@ func (s *cscan) summaryOf(fn *ssa.Function) *csummary {
 			if !ev.root.clipped {
 				sum.clipped[ev.root.param] = false
 			}
+			if ev.root.resliced {
+				sum.recut[ev.root.param] = true
+			}
 		}
 		switch ev.kind {
+		case "cow":
+			if strings.HasPrefix(ev.how, "append onto the full value") {
+				sum.appends[ev.root.param] = true
+			}
 		case "inplace":
 			if _, ok := sum.writes[ev.root.param]; !ok {
 				sum.writes[ev.root.param] = ev.how
@@ -598,6 +609,13 @@ func (s *cscan) scan(fn *ssa.Function) []cevent {
 						}
 						if how, ok := sum.writes[j]; ok {
 							emit(rs, "inplace", "passed to "+calleeLabel(callee)+" which modifies its parameter in place: "+how, ins)
+						}
+						if sum.appends[j] {
+							for _, r := range rs {
+								if r.resliced && !r.clipped {
+									emit([]croot{r}, "inplace", "a reslice is passed to "+calleeLabel(callee)+" which appends to it (overwrites the cells behind the cut in place)", ins)
+								}
+							}
 						}
 						if how, ok := sum.escapes[j]; ok {
 							emit(rs, "escape", "passed to "+calleeLabel(callee)+" where it is "+how, ins)
